@@ -230,8 +230,10 @@ impl ProgressDrawTarget {
         }
     }
 
-    pub(crate) fn adjust_last_line_count(&mut self, adjust: LineAdjust) {
-        self.kind.adjust_last_line_count(adjust);
+    /// Returns the number of lines the adjustment actually applied to: `Keep` can only retain
+    /// lines that are on the screen, i.e. part of `last_line_count`.
+    pub(crate) fn adjust_last_line_count(&mut self, adjust: LineAdjust) -> VisualLines {
+        self.kind.adjust_last_line_count(adjust)
     }
 }
 
@@ -258,7 +260,7 @@ enum TargetKind {
 
 impl TargetKind {
     /// Adjust `last_line_count` such that the next draw operation keeps/clears additional lines
-    fn adjust_last_line_count(&mut self, adjust: LineAdjust) {
+    fn adjust_last_line_count(&mut self, adjust: LineAdjust) -> VisualLines {
         let last_line_count = match self {
             Self::Term {
                 last_line_count, ..
@@ -266,12 +268,19 @@ impl TargetKind {
             Self::TermLike {
                 last_line_count, ..
             } => last_line_count,
-            _ => return,
+            _ => return VisualLines::default(),
         };
 
         match adjust {
-            LineAdjust::Clear(count) => *last_line_count = last_line_count.saturating_add(count),
-            LineAdjust::Keep(count) => *last_line_count = last_line_count.saturating_sub(count),
+            LineAdjust::Clear(count) => {
+                *last_line_count = last_line_count.saturating_add(count);
+                count
+            }
+            LineAdjust::Keep(count) => {
+                let kept = Ord::min(count, *last_line_count);
+                *last_line_count = last_line_count.saturating_sub(count);
+                kept
+            }
         }
     }
 }
